@@ -79,7 +79,6 @@ class Prop:
     engine = "TH (controlled threads: baton passing, line-level pre-emption points, simulated locks/timers/clock)"
     quick_runs = 25000
     thorough_runs = 300000
-    quick_budget = 80.0
     chunk = 100
     time_unit = "simulated seconds"
     rule = ("seeded sets of 1-4 relative / absolute (aware datetimes, also in zones other than UTC) / immediate schedules (delays 0-50 ms) on TimeoutScheduler, NewThreadScheduler, "
